@@ -40,8 +40,9 @@ def _grid():
                         continue
                     if load and op not in ('open_input', 'names'):
                         continue
-                    out.append(dict(bname=bname, envb=envb, apikw=apikw, use_env=use_env, native=native, devs=devs, op=op,
-                                    pname=pname, callapi=callapi, load=load, envset=''.join('01'[x] for x in envset)))
+                    for virt in ((False, True) if (op != 'names' and not load and not callapi) else (False,)):
+                        out.append(dict(bname=bname, envb=envb, apikw=apikw, use_env=use_env, native=native, devs=devs, op=op,
+                                        pname=pname, callapi=callapi, load=load, virt=virt, envset=''.join('01'[x] for x in envset)))
     return tuple(out)
 
 
@@ -122,6 +123,9 @@ class BackendGrid(Contract):
             if s is not None and h.sym:
                 h.assume(z3.Length(V(s)) > 0)
         kw = {'api': h.callapi} if cfg['callapi'] else {}
+        if cfg['virt']:
+            # further explicit arguments: a virtual port with a device option of the backend
+            kw.update(virtual=True, client_name='my client')
         return [MB.Backend, cfg['bname'], h.apikw, cfg['use_env'], cfg['load'], cfg['op'], h.pname, kw], {}
 
     def ensures(self, h, cfg, a, r):
@@ -146,6 +150,10 @@ class BackendGrid(Contract):
             return 'api' in call[2] and _same(call[2]['api'], want_api)
         op = cfg['op']
         log = h.log
+        if op != 'names':
+            ports = [c for c in log if c[0] in ('Input', 'Output', 'IOPort')]
+            out['virtual-and-device-options-reach-every-constructor-unchanged'] = bool(ports) and all(
+                c[2].get('virtual') is cfg['virt'] and (c[2].get('client_name') == 'my client') == cfg['virt'] for c in ports)
         if op in ('open_input', 'open_output'):
             cls, var = ('Input', 'MIDO_DEFAULT_INPUT') if op == 'open_input' else ('Output', 'MIDO_DEFAULT_OUTPUT')
             want_name = h.pname if cfg['pname'] else env(var)
